@@ -386,6 +386,13 @@ def contains(I, container, item):
         return z3.Contains(container.t, z3.Unit(unwrap(container.ty, item)))
     if isinstance(container, VRec):
         return I.vc.method_contract(I, container, '__contains__', [item], {}).t
+    if isinstance(container, VAny) and I.spec_mode == 0 and \
+            (getattr(I.contract, 'ghost', None) or {}).get('opaque_subscript'):
+        # membership test on an opaque object: an event of the ghost trace, like a subscript
+        tr = I.ghost.setdefault('ext_trace', [])
+        r = fresh(Ty('bool'), 'ext_contains')
+        tr.append({'name': 'subscr', 'args': [container, item], 'kwargs': {}, 'raised': False, 'result': r})
+        return r.t
     if isinstance(container, VAny):
         t = container.t
         if I.spec_mode == 0 and not I.decide(z3.Or(Val.is_str(t), Val.is_tok(t)), 'in-str'):
@@ -448,6 +455,9 @@ def get_attr(I, obj, name):
         if I.spec_mode == 0 and I.decide(Val.is_none(h), 'no-__html__'):
             raise Raised(VExc(AttributeError, [VStr(name)]))
         return VAny(h)
+    if isinstance(obj, VAny) and I.spec_mode == 0 and \
+            name in (getattr(I.contract, 'ghost', None) or {}).get('opaque_attrs', ()):
+        return opaque_event(I, 'attr:' + name, [obj], AttributeError, name)
     if isinstance(obj, VAny) and 'k3' in I.ghost and I.spec_mode == 0:
         used('attribute of an opaque object (uninterpreted)')
         f = z3.Function('attr_' + name, Val, Val)
@@ -535,8 +545,31 @@ def index_term(I, idx, n, what):
     return j
 
 
+def opaque_event(I, name, args, exc_cls=None, exc_arg=None):
+    """an operation on an opaque object (attribute fetch, subscript): recorded in the ghost trace
+    like an external call; it yields a fresh value or raises -- `exc_cls` only, or anything"""
+    from .interp import Raised
+    tr = I.ghost.setdefault('ext_trace', [])
+    out = I.path.choose(2, 'ext:%s' % name)
+    rec = {'name': name, 'args': list(args), 'kwargs': {}, 'raised': bool(out)}
+    tr.append(rec)
+    if out:
+        if exc_cls is not None:
+            exc = VExc(exc_cls, [VStr(exc_arg or '')])
+        else:
+            from .k3 import new_sym_exc
+            exc = new_sym_exc(I, fresh_name('exc_' + name))
+        rec['exc'] = exc
+        raise Raised(exc)
+    rec['result'] = fresh(Ty('any'), 'ext_' + name.replace(':', '_'))
+    return rec['result']
+
+
 def get_item(I, obj, idx):
     from .interp import Raised
+    if isinstance(obj, VAny) and I.spec_mode == 0 and \
+            (getattr(I.contract, 'ghost', None) or {}).get('opaque_subscript'):
+        return opaque_event(I, 'subscr', [obj, idx])
     if isinstance(obj, VOpt):
         if I.spec_mode == 0 and I.decide(obj.none, 'none-subscript'):
             raise Raised(VExc(TypeError, [VStr("'NoneType' object is not subscriptable")]))
